@@ -13,16 +13,23 @@
      call  <tid> try|lock|unl <name> <key> <size> [after <tid> ...]   issued as soon as the listed calls returned
      cancel <tid> <go error name>                 the environment may end that call's context once, with that cause
      gc <max>   tick <dt> <max>   shutdown        further environment items that may be inserted
+     shards <n>                                   number of lock shards of the manager (default 1)
      sample <n>                                   0 = print every schedule, else a uniform sample of n (reservoir)
      cap <n>                                      stop the enumeration after n complete schedules
      end
 
    Schedule format (gen output, and what harness/sched echoes):
-     S <sid>  /  C <minidle>
+     S <sid>  /  C <minidle>  /  H <shards>
      I <k> call <tid> <kind> <name> <key> <size> | run <tid> | wake <tid> | fcancel <tid> | cancel <tid> <err>
-           | gcpass | tick <dt> | shutdown
+           | gcpass | gcstart | gcrun | resume <tid> | tick <dt> | shutdown
          (wake/fcancel are the FORCED pure pc moves PAcqWait->PAcqWoken / PAcqWait->PAcqCancel: the real goroutine
-          performs them by itself; gcpass = IGc n for every currently mapped name n)
+          performs them by itself. `check` performs them by itself too, after every item, and skips the echoed ones:
+          a schedule with inserted items stays in step.
+          gcpass = IGc n for every currently mapped name n (a whole pass, atomically).
+          gcstart = a GC pass begins in a goroutine of its own and parks before its first shard.Lock() (no model step);
+          the i-th gcrun after it = IGc n for every mapped name n of shard i (FNV-1 32 of the name mod <shards>, as
+          Manager.getShard); after <shards> of them the pass has ended; further gcrun items are no-ops.
+          resume <tid> = a real thread parked at a window yield point goes on: no model step.)
      X <k>                 observation after item k:  T <tid> P <label> | T <tid> B | T <tid> F <ok> <err>
                                                       L <name> <size> <nkeys> <key>...      K <crashed>
      G ...                 ghost facts (gen): inv/res with item index, linearisation actions, giveback, preemptions
@@ -76,6 +83,9 @@ type hitem =
   | HFCancel of int         (* forced IRunCancel *)
   | HCancel of int * err
   | HGc
+  | HGcStart
+  | HGcRun
+  | HResume of int          (* exhibit runs: the real thread leaves a window yield point; no model step *)
   | HTick of int
   | HShutdown
 
@@ -97,6 +107,9 @@ let tok_of_hitem = function
   | HFCancel t -> Printf.sprintf "fcancel %d" t
   | HCancel (t, e) -> Printf.sprintf "cancel %d %s" t (tok_of_err (Some e))
   | HGc -> "gcpass"
+  | HGcStart -> "gcstart"
+  | HGcRun -> "gcrun"
+  | HResume t -> Printf.sprintf "resume %d" t
   | HTick d -> Printf.sprintf "tick %d" d
   | HShutdown -> "shutdown"
 
@@ -107,24 +120,54 @@ let hitem_of_toks = function
   | ["fcancel"; t] -> HFCancel (int_of_string t)
   | ["cancel"; t; e] -> HCancel (int_of_string t, (match err_of_tok e with Some e -> e | None -> ECtxCanceled))
   | "gcpass" :: _ -> HGc
+  | ["gcstart"] -> HGcStart
+  | ["gcrun"] -> HGcRun
+  | ["resume"; t] -> HResume (int_of_string t)
   | ["tick"; d] -> HTick (int_of_string d)
   | ["shutdown"] -> HShutdown
   | l -> raise (Bad ("item: " ^ String.concat " " l))
 
-let apply (minidle : z) (s : lstate) (h : hitem) : lstate =
+(* Manager.getShard: hash/fnv New32 = FNV-1 (multiply, then xor), 32 bit, modulo the number of shards *)
+let fnv1_32 (name : byte list) : int =
+  List.fold_left (fun h b -> ((h * 16777619) land 0xFFFFFFFF) lxor (int_of_n (byte_to_N b))) 2166136261 name
+let shard_of (nsh : int) (name : byte list) : int = if nsh <= 1 then 0 else fnv1_32 name mod nsh
+
+(* the model state together with the position of the GC pass that runs as a goroutine of its own:
+   gp = next shard of the pass in progress (-1: none), ngc = passes started so far *)
+type mstate = { s : lstate; gp : int; ngc : int }
+let m_init = { s = l_init; gp = -1; ngc = 0 }
+type menv = { mi : z; nsh : int }
+let gc_tid0 = 90
+
+let apply (env : menv) (m : mstate) (h : hitem) : mstate =
+  let minidle = env.mi in
+  let s = m.s in
   match h with
-  | HCall (t, op) -> lstep minidle s (ICall (nat_of_int t, op))
-  | HRun t | HWake t -> lstep minidle s (IRun (nat_of_int t))
-  | HFCancel t -> lstep minidle s (IRunCancel (nat_of_int t))
-  | HCancel (t, e) -> lstep minidle s (ICancel (nat_of_int t, e))
-  | HGc -> List.fold_left (lstep minidle) s (lk_gcpass s)
-  | HTick d -> lstep minidle s (ITick (z_of_int d))
-  | HShutdown -> lstep minidle s IShutdown
+  | HCall (t, op) -> { m with s = lstep minidle s (ICall (nat_of_int t, op)) }
+  | HRun t | HWake t -> { m with s = lstep minidle s (IRun (nat_of_int t)) }
+  | HFCancel t -> { m with s = lstep minidle s (IRunCancel (nat_of_int t)) }
+  | HCancel (t, e) -> { m with s = lstep minidle s (ICancel (nat_of_int t, e)) }
+  | HGc -> { m with s = List.fold_left (lstep minidle) s (lk_gcpass s) }
+  | HGcStart -> { m with gp = 0; ngc = m.ngc + 1 }
+  | HGcRun ->
+      if m.gp < 0 then m else
+        let names = List.filter (fun n -> shard_of env.nsh n = m.gp) (lk_names s) in
+        { m with s = List.fold_left (fun s n -> lstep minidle s (IGc n)) s names; gp = (if m.gp + 1 >= env.nsh then -1 else m.gp + 1) }
+  | HResume _ -> m
+  | HTick d -> { m with s = lstep minidle s (ITick (z_of_int d)) }
+  | HShutdown -> { m with s = lstep minidle s IShutdown }
 
 let forced_of (s : lstate) : hitem list =
   List.sort compare
     (List.filter_map (function IRun t -> Some (HWake (int_of_nat t)) | IRunCancel t -> Some (HFCancel (int_of_nat t)) | _ -> None)
        (lk_forced s))
+
+(* the pure pc moves the real goroutines make by themselves, until there is none left *)
+let rec settle_forced (env : menv) (m : mstate) (fuel : int) : mstate =
+  if fuel = 0 then m else
+  match forced_of m.s with
+  | f :: _ -> settle_forced env (apply env m f) (fuel - 1)
+  | [] -> m
 
 (* ---- observations ---- *)
 let label_names = [| "PEnter"; "PGet"; "PChkDel"; "PTryAcq"; "PAcqEnter"; "PAcqWait"; "PAcqWoken"; "PAcqCancel"; "PRelCancel";
@@ -135,13 +178,16 @@ type obs = { o_thr : (int * tstat) list; o_tab : (ostring * int * ostring list) 
 let threads_sorted (s : lstate) : (int * thread) list =
   List.sort (fun (a, _) (b, _) -> compare a b) (List.map (fun (t, th) -> (int_of_nat t, th)) (lk_threads s))
 
-let observe (s : lstate) : obs =
+let observe (m : mstate) : obs =
+  let s = m.s in
   let thr = List.map (fun (t, th) ->
       let st = match th.t_pc with
         | PFin r -> SF (r.r_ok, tok_of_err r.r_err)
         | PAcqWait _ -> SB
         | pc -> SP label_names.(int_of_nat (pc_label pc)) in
       (t, st)) (threads_sorted s) in
+  (* the GC pass in progress is parked at its (only) yield point *)
+  let thr = if m.gp >= 0 then thr @ [(gc_tid0 + m.ngc - 1, SP "GcShard1")] else thr in
   let tab = List.sort compare (List.map (fun (n, (z, ks)) -> (hex_of_str n, int_of_z z, List.map hex_of_str ks)) (lk_table s)) in
   { o_thr = thr; o_tab = tab; o_crashed = s.l_crashed }
 
@@ -191,10 +237,10 @@ type scenario = {
   sc_calls : (int * lop * int list) list;
   sc_cancels : (int * err) list;
   sc_gc : int; sc_tick : (int * int) option; sc_shutdown : bool;
-  sc_sample : int; sc_cap : int;
+  sc_sample : int; sc_cap : int; sc_shards : int;
 }
 let empty_sc id = { sc_id = id; sc_minidle = 0; sc_bound = 2; sc_setup = []; sc_calls = []; sc_cancels = []; sc_gc = 0;
-                    sc_tick = None; sc_shutdown = false; sc_sample = 0; sc_cap = 200000 }
+                    sc_tick = None; sc_shutdown = false; sc_sample = 0; sc_cap = 200000; sc_shards = 1 }
 
 let read_scenarios (file : ostring) : scenario list =
   let ic = open_in file in
@@ -221,6 +267,7 @@ let read_scenarios (file : ostring) : scenario list =
        | ["gc"; n], Some sc -> cur := Some { sc with sc_gc = int_of_string n }
        | ["tick"; d; n], Some sc -> cur := Some { sc with sc_tick = Some (int_of_string d, int_of_string n) }
        | ["shutdown"], Some sc -> cur := Some { sc with sc_shutdown = true }
+       | ["shards"; n], Some sc -> cur := Some { sc with sc_shards = max 1 (int_of_string n) }
        | ["sample"; n], Some sc -> cur := Some { sc with sc_sample = int_of_string n }
        | ["cap"; n], Some sc -> cur := Some { sc with sc_cap = int_of_string n }
        | _ -> raise (Bad ("scenario line: " ^ line))
@@ -230,8 +277,9 @@ let read_scenarios (file : ostring) : scenario list =
   List.rev !out
 
 (* ---- enumeration ---- *)
+let gc_thread = -1                    (* the GC pass as a "thread" of the preemption count *)
 type node = {
-  st : lstate;
+  st : mstate;
   items : hitem list;                (* reversed *)
   last : int option;                 (* thread of the last run item *)
   pre : int;                         (* preemptions used *)
@@ -241,18 +289,18 @@ type node = {
 }
 
 (* apply an item, then the forced moves, then issue the calls that became ready *)
-let rec settle (mi : z) (nd : node) : node =
-  match forced_of nd.st with
+let rec settle (mi : menv) (nd : node) : node =
+  match forced_of nd.st.s with
   | f :: _ -> settle mi { nd with st = apply mi nd.st f; items = f :: nd.items }
   | [] ->
-    let ready, waiting = List.partition (fun (_, _, deps) -> List.for_all (fun d -> lk_finished nd.st (nat_of_int d)) deps) nd.pending in
+    let ready, waiting = List.partition (fun (_, _, deps) -> List.for_all (fun d -> lk_finished nd.st.s (nat_of_int d)) deps) nd.pending in
     (match ready with
      | [] -> nd
      | _ ->
        let nd' = List.fold_left (fun nd (t, op, _) -> let it = HCall (t, op) in { nd with st = apply mi nd.st it; items = it :: nd.items }) nd ready in
        settle mi { nd' with pending = waiting })
 
-let do_item (mi : z) (nd : node) (it : hitem) : node =
+let do_item (mi : menv) (nd : node) (it : hitem) : node =
   settle mi { nd with st = apply mi nd.st it; items = it :: nd.items }
 
 type choice = CStop | CItem of hitem * int (* cost *)
@@ -262,18 +310,22 @@ let thread_is_lock (s : lstate) (t : int) =
                                && (match th.t_pc with PFin _ -> false | _ -> true)) (threads_sorted s)
 
 let choices (sc : scenario) (nd : node) : choice list =
-  let s = nd.st in
+  let s = nd.st.s in
   if s.l_crashed then [CStop] else
   let runs = List.filter (fun t -> lk_enabled s (nat_of_int t)) (List.map fst (threads_sorted s)) in
-  let last_enabled = match nd.last with Some l -> List.mem l runs | None -> false in
+  let gc_running = nd.st.gp >= 0 in
+  let last_enabled = match nd.last with Some l -> List.mem l runs || (l = gc_thread && gc_running) | None -> false in
   let run_choices = List.map (fun t -> CItem (HRun t, if last_enabled && nd.last <> Some t then 1 else 0)) runs in
   let ecost = if last_enabled then 1 else 0 in
+  (* the GC pass is a goroutine of its own: "gcstart" parks it, the other threads' steps interleave with its "gcrun" items.
+     Shutdown never overlaps a pass (the GC goroutine itself takes the stop request, between two passes). *)
   let env =
     List.filter_map (fun (t, e) -> if thread_is_lock s t then Some (CItem (HCancel (t, e), ecost)) else None) nd.cancels_left
-    @ (if nd.gc_left > 0 then [CItem (HGc, ecost)] else [])
+    @ (if gc_running then [CItem (HGcRun, if last_enabled && nd.last <> Some gc_thread then 1 else 0)]
+       else if nd.gc_left > 0 then [CItem (HGcStart, ecost)] else [])
     @ (match sc.sc_tick with Some (d, _) when nd.tick_left > 0 -> [CItem (HTick d, ecost)] | _ -> [])
-    @ (if nd.shut_left && not s.l_shut && no_call_in_flight s then [CItem (HShutdown, ecost)] else []) in
-  (if runs = [] then [CStop] else []) @ run_choices @ env
+    @ (if nd.shut_left && not s.l_shut && no_call_in_flight s && not gc_running then [CItem (HShutdown, ecost)] else []) in
+  (if runs = [] && not gc_running then [CStop] else []) @ run_choices @ env
 
 let shuffle (rng : Random.State.t) (l : 'a list) : 'a list =
   let a = Array.of_list l in
@@ -287,15 +339,15 @@ exception Cap
 
 (* calls [emit idx items pre] for every complete schedule within the preemption bound *)
 let enumerate (sc : scenario) (rng : Random.State.t option) (emit : int -> hitem list -> int -> unit) : int * bool =
-  let mi = z_of_int sc.sc_minidle in
+  let mi = { mi = z_of_int sc.sc_minidle; nsh = sc.sc_shards } in
   let count = ref 0 in
   (* setup: each call alone, to completion *)
-  let nd0 = { st = l_init; items = []; last = None; pre = 0; pending = sc.sc_calls; cancels_left = sc.sc_cancels;
+  let nd0 = { st = m_init; items = []; last = None; pre = 0; pending = sc.sc_calls; cancels_left = sc.sc_cancels;
               gc_left = sc.sc_gc; tick_left = (match sc.sc_tick with Some (_, n) -> n | None -> 0); shut_left = sc.sc_shutdown } in
   let nd0 = { nd0 with pending = [] } in
   let nd0 = List.fold_left (fun nd (t, op) ->
       let nd = do_item mi nd (HCall (t, op)) in
-      let rec go nd fuel = if fuel = 0 || not (lk_enabled nd.st (nat_of_int t)) then nd else go (do_item mi nd (HRun t)) (fuel - 1) in
+      let rec go nd fuel = if fuel = 0 || not (lk_enabled nd.st.s (nat_of_int t)) then nd else go (do_item mi nd (HRun t)) (fuel - 1) in
       go nd 64) nd0 sc.sc_setup in
   let nd0 = settle mi { nd0 with pending = sc.sc_calls; last = None } in
   let rec dfs (nd : node) (depth : int) =
@@ -313,7 +365,8 @@ let enumerate (sc : scenario) (rng : Random.State.t option) (emit : int -> hitem
               let nd' = match it with
                 | HRun t -> { nd with last = Some t }
                 | HCancel (t, e) -> { nd with last = None; cancels_left = List.filter (fun c -> c <> (t, e)) nd.cancels_left }
-                | HGc -> { nd with last = None; gc_left = nd.gc_left - 1 }
+                | HGc | HGcStart -> { nd with last = None; gc_left = nd.gc_left - 1 }
+                | HGcRun -> { nd with last = Some gc_thread }
                 | HTick _ -> { nd with last = None; tick_left = nd.tick_left - 1 }
                 | HShutdown -> { nd with last = None; shut_left = false }
                 | _ -> nd in
@@ -325,23 +378,23 @@ let enumerate (sc : scenario) (rng : Random.State.t option) (emit : int -> hitem
 (* ---- printing one schedule (replay on the model) ---- *)
 let is_forced = function HWake _ | HFCancel _ -> true | _ -> false
 
-let print_schedule oc (sid : ostring) (minidle : int) (items : hitem list) (pre : int) =
-  let mi = z_of_int minidle in
-  Printf.fprintf oc "S %s\nC %d\n" sid minidle;
+let print_schedule oc (sid : ostring) (minidle : int) (nsh : int) (items : hitem list) (pre : int) =
+  let mi = { mi = z_of_int minidle; nsh = nsh } in
+  Printf.fprintf oc "S %s\nC %d\nH %d\n" sid minidle nsh;
   let ghost = ref [] in
   let rec go s k = function
     | [] -> s
     | it :: rest ->
         let s' = apply mi s it in
         Printf.fprintf oc "I %d %s\n" k (tok_of_hitem it);
-        ghost := List.rev_append (ghost_lines "" k (new_events s s')) !ghost;
+        ghost := List.rev_append (ghost_lines "" k (new_events s.s s'.s)) !ghost;
         (match rest with
          | nx :: _ when is_forced nx -> ()
          | _ -> print_obs oc k (observe s'));
         go s' (k + 1) rest in
-  let s = go l_init 0 items in
+  let s = go m_init 0 items in
   List.iter (fun l -> output_string oc (l ^ "\n")) (List.rev !ghost);
-  Printf.fprintf oc "G giveback %d\nG pre %d\nZ\n" (if has_giveback s then 1 else 0) pre
+  Printf.fprintf oc "G giveback %d\nG pre %d\nZ\n" (if has_giveback s.s then 1 else 0) pre
 
 let gen (file : ostring) (seed : int) =
   let rng = Random.State.make [| seed; 0x7432 |] in
@@ -349,7 +402,7 @@ let gen (file : ostring) (seed : int) =
   List.iter (fun sc ->
       if sc.sc_sample = 0 then begin
         let (n, capped) = enumerate sc None (fun idx items pre ->
-            print_schedule stdout (Printf.sprintf "%s#%d" sc.sc_id idx) sc.sc_minidle items pre) in
+            print_schedule stdout (Printf.sprintf "%s#%d" sc.sc_id idx) sc.sc_minidle sc.sc_shards items pre) in
         Printf.printf "Q %s enumerated %d printed %d capped %d bound %d\n" sc.sc_id n n (if capped then 1 else 0) sc.sc_bound
       end else begin
         (* reservoir sample of sc_sample schedules out of the (randomly ordered, possibly capped) enumeration *)
@@ -362,7 +415,7 @@ let gen (file : ostring) (seed : int) =
               if j < k then res.(j) <- Some (idx, items, pre)
             end) in
         let chosen = List.sort compare (List.filter_map (fun x -> x) (Array.to_list res)) in
-        List.iter (fun (idx, items, pre) -> print_schedule stdout (Printf.sprintf "%s#%d" sc.sc_id idx) sc.sc_minidle items pre) chosen;
+        List.iter (fun (idx, items, pre) -> print_schedule stdout (Printf.sprintf "%s#%d" sc.sc_id idx) sc.sc_minidle sc.sc_shards items pre) chosen;
         Printf.printf "Q %s enumerated %d printed %d capped %d bound %d\n" sc.sc_id n (List.length chosen) (if capped then 1 else 0) sc.sc_bound
       end) scs
 
@@ -402,8 +455,8 @@ let compare_obs (sid : ostring) (k : int) (exp : obs) (got : obs) : (ostring * o
 
 let check (file : ostring) =
   let ic = open_in file in
-  let sid = ref "" and mi = ref Z0 in
-  let s = ref l_init in
+  let sid = ref "" and mi = ref { mi = Z0; nsh = 1 } in
+  let s = ref m_init in
   let cur_k = ref (-1) in
   let blk : obs option ref = ref None in
   let ndiff = ref 0 and first = ref None and nitems = ref 0 and bad = ref None in
@@ -425,8 +478,8 @@ let check (file : ostring) =
       (match !first with
        | None -> Printf.printf "R %s ok %d %d\n" !sid !nitems (if complete then 1 else 0)
        | Some (k, kind) -> Printf.printf "R %s diff %d %s %d %d\n" !sid k kind !ndiff (if complete then 1 else 0));
-      Printf.printf "G %s giveback %d\n" !sid (if has_giveback !s then 1 else 0);
-      Printf.printf "G %s crashed %d\n" !sid (if !s.l_crashed then 1 else 0)
+      Printf.printf "G %s giveback %d\n" !sid (if has_giveback !s.s then 1 else 0);
+      Printf.printf "G %s crashed %d\n" !sid (if !s.s.l_crashed then 1 else 0)
     end;
     active := false in
   (try
@@ -436,13 +489,15 @@ let check (file : ostring) =
          match split_ws line with
          | ["S"; id] ->
              finish false;
-             sid := id; s := l_init; mi := Z0; cur_k := -1; blk := None; ndiff := 0; first := None; nitems := 0; bad := None; active := true
-         | ["C"; v] -> mi := z_of_int (int_of_string v)
+             sid := id; s := m_init; mi := { mi = Z0; nsh = 1 }; cur_k := -1; blk := None; ndiff := 0; first := None; nitems := 0; bad := None; active := true
+         | ["C"; v] -> mi := { !mi with mi = z_of_int (int_of_string v) }
+         | ["H"; v] -> mi := { !mi with nsh = max 1 (int_of_string v) }
          | "I" :: k :: rest when !active ->
              flush_block ();
              let it = hitem_of_toks rest in
-             let s' = apply !mi !s it in
-             List.iter print_endline (ghost_lines (!sid ^ " ") (int_of_string k) (new_events !s s'));
+             (* forced moves are made here after every item (as the real goroutines make them); the echoed ones are skipped *)
+             let s' = if is_forced it then !s else settle_forced !mi (apply !mi !s it) 64 in
+             List.iter print_endline (ghost_lines (!sid ^ " ") (int_of_string k) (new_events !s.s s'.s));
              s := s'; cur_k := int_of_string k; incr nitems
          | ["X"; k] when !active -> flush_block (); cur_k := int_of_string k; blk := Some { o_thr = []; o_tab = []; o_crashed = false }
          | "T" :: t :: rest when !active ->
